@@ -15,6 +15,8 @@ from common import log
 CORPUS = os.path.join(common.VERIF, 'corpus', 'c11')
 DRIVER = os.path.join(common.LEAN, '.lake', 'build', 'bin', 'driver_codec')
 M32 = 1 << 32
+SKIPPED = '<skipped-after-crash>'
+NOANSWER = ('CRASH', SKIPPED)
 V3, NO = b'\x03', b''
 
 
@@ -317,14 +319,25 @@ class Runner:
                 res += out
                 break
             rc, out, err = self._harness_once(todo, flush=True)
+            if rc == 0 and len(out) == len(todo):      # not reproducible (should not happen: the harness is deterministic)
+                res += out
+                break
             k = min(len(out), len(todo) - 1)
             res += out[:k] + ['CRASH']
             self.crashes.append({'request': todo[k], 'exit': rc, 'stderr': err[-2500:]})
-            todo = todo[k + 1:]
+            # the same function is not called again in this chunk: one crash per function is a result, thousands are noise
+            verb = todo[k].split()[1]
+            rest = todo[k + 1:]
+            res_rest = [None if l.split()[1] != verb else SKIPPED for l in rest]
+            todo = [l for l in rest if l.split()[1] != verb]
             guard += 1
             if guard >= 25:
-                res += ['<not-run>'] * len(todo)
-                break
+                res_rest = [SKIPPED] * len(rest)
+                todo = []
+            sub = self.harness(todo) if todo else []
+            it = iter(sub)
+            res += [next(it) if r is None else r for r in res_rest]
+            return res
         return res
 
     def model(self, lines):
@@ -468,7 +481,7 @@ def sweep_len3(runner, res):
         l_out = runner.model(lines)
         out = []
         for ln, x, y in zip(lines, c_out, l_out):
-            if not same(ln, x, y) or not oracle_ok(ln, x):
+            if x not in NOANSWER and (not same(ln, x, y) or not oracle_ok(ln, x)):
                 out.append((ln, x, y))
         return out
     with concurrent.futures.ThreadPoolExecutor(max_workers=max(2, common.NCPU // 2)) as ex:
@@ -555,6 +568,8 @@ def run(res, args):
     for ln, x, y in zip(lines, c_out, l_out):
         key = x.split(' ')[0] if not x.startswith('ERR') else x
         answers[key] = answers.get(key, 0) + 1
+        if x in NOANSWER:
+            continue
         d = not same(ln, x, y)
         o = not oracle_ok(ln, x)
         if d:
@@ -636,12 +651,20 @@ def run(res, args):
         res.violation({'kind': 'impl-inverse-law', 'request': req, 'law': what, 'failing_requests': len(reqs),
                        'explain': 'evaluated in-process on the implementation\'s own output by harness/codec.c'}, f'law-{what}')
         reported += 1
-    for c in runner.crashes[:5]:
-        if any(matches_known(k, c['request']) for k in known):
-            continue
-        store_corpus(c['request'])
-        res.violation({'kind': 'sanitizer-or-crash', 'request': c['request'], 'exit': c['exit'], 'stderr': c['stderr']},
-                      f"crash-{hashlib.sha1(c['request'].encode()).hexdigest()[:8]}")
+    by_verb = {}
+    for c in runner.crashes:
+        if not any(matches_known(k, c['request']) for k in known):
+            by_verb.setdefault(c['request'].split()[1], []).append(c)
+    for verb, cs in sorted(by_verb.items()):
+        c = min(cs, key=lambda c: value_of(c['request']))
+        small = shrink(runner, c['request'], lambda l, a, m: a == 'CRASH')
+        n0 = len(runner.crashes)
+        sx, sy = runner.both([small], jobs=1)
+        err = runner.crashes[-1]['stderr'] if len(runner.crashes) > n0 else c['stderr']
+        store_corpus(small)
+        res.violation({'kind': 'sanitizer-or-crash', 'request': small, 'impl': sx[0], 'model': sy[0], 'exit': c['exit'],
+                       'first_found': c['request'], 'stderr': err,
+                       'explain': 'the real function aborted under ASan/UBSan (or crashed) on this request'}, f'crash-{verb}')
         reported += 1
     for f in extra_fail:
         res.violation({'kind': 'sweep', **f}, 'mb-sweep', no_input=True)
@@ -654,10 +677,11 @@ def run(res, args):
     if unexplained and not reported:
         # behaviour changed where the property is silent (or the model is out of date): bounded search with a fresh seed
         rng2 = random.Random(res.seed * 7919 + 1)
-        more = [l for l in gen_lines(rng2, 'thorough', {}) if l not in set(lines)][:600000]
+        have = set(lines)
+        more = [l for l in gen_lines(rng2, 'thorough', {}) if l not in have and not l.startswith('CODEC ENT ')][:600000]
         cx, lx = runner.both(more)
         res.evaluations += len(more)
-        found = [(ln, x, y) for ln, x, y in zip(more, cx, lx) if not oracle_ok(ln, x) and not any(matches_known(k, ln) for k in known)]
+        found = [(ln, x, y) for ln, x, y in zip(more, cx, lx) if x not in NOANSWER and not oracle_ok(ln, x) and not_known(ln)]
         if found:
             ln, x, y = min(found, key=lambda it: value_of(it[0]))
             small = shrink(runner, ln, bad_oracle)
